@@ -2,6 +2,7 @@ use glass_easel_template_compiler as tc;
 use serde_json::{json, Map, Value};
 use std::panic::{catch_unwind, AssertUnwindSafe};
 use tc::stringify::Stringify;
+use tc::verif_hooks::verif_bm_trace;
 use tc::verif_hooks::verif_trace;
 
 fn want(v: &Value, k: &str) -> bool {
@@ -158,6 +159,11 @@ pub fn run_case(v: &Value) -> Value {
     let mut traces = vec![];
     let mut sources: Vec<(String, String)> = vec![];
     let want_trace = want(v, "trace");
+    // calls on the binding-map collectors of this case (second pass of the parser and list_fields at emission)
+    let want_bm = want(v, "bmtrace");
+    if want_bm {
+        verif_bm_trace::start();
+    }
     for op in ops.iter() {
         let g = if let Some(s) = sub.as_mut() {
             s
@@ -353,6 +359,18 @@ pub fn run_case(v: &Value) -> Value {
         res.insert("ast".into(), Value::Object(asts));
     }
 
+    if want_bm {
+        let evs: Vec<Value> = verif_bm_trace::take()
+            .iter()
+            .map(|e| match e.op {
+                1 | 4 => json!([e.op, e.id]),
+                2 => json!([e.op, e.id, e.field, e.ret]),
+                3 => json!([e.op, e.id, e.field]),
+                _ => json!([e.op, e.id, e.list.iter().map(|(k, n)| json!([k, n])).collect::<Vec<_>>()]),
+            })
+            .collect();
+        res.insert("bmtrace".into(), Value::Array(evs));
+    }
     res.insert("panic".into(), Value::Array(panics));
     Value::Object(res)
 }
